@@ -2,6 +2,7 @@
    of the incremental AES-GCM core (EciesGcm.v: gwenc / gwdec / gwtag over any block cipher E
    with 16-byte blocks and any GF(2^128) product): the AEAD inverse law and the sizes of the
    wrapped key and of its tag are theorems (GcmProofs), no longer premises. *)
+From MLA Require Import Limit.
 From MLA Require Import Base Stream Blocks Writer Reader RoundTripBlocks RoundTripWriter EncLayer CompLayer Format Gcm GcmProofs
   Ecies EciesGcm InstGcm FormatProofs Archive ArchiveInst ArchiveProofs.
 From MLA.Concrete Require Import Ghash.
@@ -34,6 +35,7 @@ Section G.
   Qed.
 
   Variables CHUNK TAG CIPHERBUF BLOCK LIMIT FNMAX : N.
+  Local Hint Extern 0 Limit => exact LIMIT : typeclass_instances.
   Variables TS TC TA TE : N.
   Variable H : bytes -> bytes.
   Variable order : footer -> footer.
